@@ -382,7 +382,8 @@ def run_direction(case):
         lr = res["lc"] if kind == "causal" else res["la"]
         sgn = 1.0 if lr >= 0 else -1.0
         if case["trainer"] in MODULATED:
-            sgn *= 1.0 if case["signal"][0] >= 0 else -1.0
+            s0 = case["signal"][0]
+            sgn *= 1.0 if (s0[0] if isinstance(s0, list) else s0) >= 0 else -1.0
         word = "post-after-pre" if kind == "causal" else "pre-after-post"
         for (t, fp, fn) in res["calls"]:
             live, dead = (fp, fn) if sgn > 0 else (fn, fp)
@@ -504,8 +505,12 @@ def base_case(draw, tier, trainer):
 def _signals(draw, case, T, constant_sign=None):
     B = case["B"]
     if constant_sign is not None:
-        mags = [draw(st.sampled_from([1.0, 0.5, 2.0, 0.25])) for _ in range(T)]
-        case["signal"] = [constant_sign * m for m in mags]
+        pal = [1.0, 0.5, 2.0, 0.25]
+        if draw(st.booleans()):
+            case["signal"] = [constant_sign * draw(st.sampled_from(pal)) for _ in range(T)]
+        else:  # per-sample rewards that all agree in sign
+            case["reduction"] = "sum"
+            case["signal"] = [[constant_sign * draw(st.sampled_from(pal)) for _ in range(B)] for _ in range(T)]
     elif draw(st.booleans()):
         case["reduction"] = "sum"
         case["signal"] = [[draw(st.sampled_from(_SIG)) for _ in range(B)] for _ in range(T)]
